@@ -457,6 +457,8 @@ class GwLuba(SerialGateway):
             k = self.ncmd
             self.ncmd += 1
             outcome = self.answer_for(k, int.from_bytes(bytes(fb), "big"), nbits)
+            if (self.sc.get("silent_from") and k + 1 >= self.sc["silent_from"]) or self.sc.get("late_confirm") == k + 1:
+                outcome = ("none", 0)          # a gateway that has died (or is too late) reports no answer either
             tx_id = (k + 1) % 256
             self.cmdlog.append({"ix": k + 1, "task": self.writes[-1]["task"], "frame": int.from_bytes(bytes(fb), "big"),
                                 "bits": nbits, "twice": 1 if twice else 0, "outcome": list(outcome), "seq": tx_id,
@@ -470,6 +472,13 @@ class GwLuba(SerialGateway):
                               [:self.sc["truncate_confirm"]])
                 return
             if self.sc.get("silent_confirm") == k + 1:
+                return
+            if self.sc.get("late_confirm") == k + 1:
+                # the confirmation comes, but only after the driver has given up waiting for it
+                keep, self.latency = self.latency, self.sc.get("late_by", 1.3)
+                self.emit(luba_frame(0x33, [tx_id, 0]))
+                self.emit(luba_frame(0x31, [0, 0, 0, 0x00 | nbits, tx_id] + fb), "conf")
+                self.latency = keep
                 return
             self.emit(luba_frame(0x33, [tx_id, 0]))
             for _ in range(2 if twice else 1):
@@ -508,6 +517,8 @@ class GwSci(SerialGateway):
         k = self.ncmd
         self.ncmd += 1
         outcome = self.answer_for(k, int.from_bytes(bytes(fb), "big"), 8 * nbytes)
+        if (self.sc.get("silent_from") and k + 1 >= self.sc["silent_from"]) or self.sc.get("late_confirm") == k + 1:
+            outcome = ("none", 0)
         self.cmdlog.append({"ix": k + 1, "task": self.writes[-1]["task"], "frame": int.from_bytes(bytes(fb), "big"),
                             "bits": 8 * nbytes, "twice": 1 if twice else 0, "outcome": list(outcome), "seq": 0,
                             "write": len(self.writes)})
@@ -518,6 +529,11 @@ class GwSci(SerialGateway):
                 self.emit(sci_block(0x10, [0, 0, 0])[:min(4, self.sc["truncate_confirm"])])
             return
         if self.sc.get("silent_confirm") == k + 1:
+            return
+        if self.sc.get("late_confirm") == k + 1:
+            keep, self.latency = self.latency, self.sc.get("late_by", 0.16)
+            self.emit(sci_block(0x10, [0, 0, 0]), "conf")
+            self.latency = keep
             return
         self.emit(sci_block(0x10, [0, 0, 0]), "conf")    # status OK: confirmation
         if control & 0x20:                               # echo of the transmitted frame
